@@ -9,3 +9,4 @@ CONSTANTS
   MaxSaves = 6
   MaxEvents = 0
   Dev <- Known
+  Pairs2 = TRUE
